@@ -1,3 +1,4 @@
+import Balm.Trans
 import Balm.Expr
 import Balm.KeyBits
 /-! C17: `Balm.Net.ofExprs_congr` – logically equivalent update formulas denote the same semantic
